@@ -42,6 +42,10 @@
 (*  vmm    res + SNAPSHOT              vmm.Init returned                    *)
 (*  alloc  res f total reserved lock   mm.AllocFrame returned               *)
 (*  free   f res total reserved lock   FreeFrame(f) returned                *)
+(*  drain  fs res total reserved lock  AllocFrame called until it failed;   *)
+(*         fs = the frames handed out, res = the final result               *)
+(*  freeall fs res total reserved lock every frame the caller holds (fs)    *)
+(*         given back; res = "ok" or the first error                       *)
 (*  map    what u fr res pg tables bad total reserved lock                  *)
 (*         vmm.Map of observed page u ("lazy": zero frame, present + copy-  *)
 (*         on-write + no-execute; "own": frame fr the caller just allocated,*)
@@ -234,6 +238,29 @@ MonFree(s, e) ==
   [s |-> [s EXCEPT !.ps = m.s, !.ph = IF e.res = "panic" \/ e.res = "crash" THEN "dead" ELSE s.ph],
    cs |-> m.cs]
 
+(* bulk operations of the driver: allocate until out of memory / give everything back *)
+MonDrain(s, e) ==
+  LET F == WSet(e.fs) IN
+  [s |-> [s EXCEPT !.ps.held = s.ps.held \cup F, !.ph = IF e.res = "oom" THEN s.ph ELSE "dead"],
+   cs |-> <<
+     <<"XB3", e.res # "oom", <<"allocating until out of memory ended with", e.res>> >>,
+     <<"XB4", s.zero \in Range(e.fs), "the reserved zero frame was handed out again">>,
+     <<"XB1", F \cap (s.tb \cup {Wn(s.root)}) # {}, <<"a page-table frame of the kernel address space was handed out", Pick(F \cap (s.tb \cup {Wn(s.root)}))>> >>,
+     <<"XB1", Cardinality(F) # Len(e.fs), "a frame was handed out twice">> >>
+     \o Acquire(s.ps, F, e, "AllocFrame") \o <<
+     <<"C03", e.res = "oom" /\ Cardinality(s.ps.held \cup F) # s.ps.n,
+              <<"out of memory reported with usable frames left", s.ps.n - Cardinality(s.ps.held \cup F)>> >> >>]
+
+MonFreeAll(s, e) ==
+  LET F == WSet(e.fs) IN
+  [s |-> [s EXCEPT !.ps.held = s.ps.held \ F, !.ph = IF e.res = "ok" THEN s.ph ELSE "dead"],
+   cs |-> <<
+     <<"C03", e.res # "ok", <<"free of an allocated frame rejected", e.res>> >>,
+     <<"XB1", ~(F \subseteq s.ps.held) \/ Cardinality(F) # Len(e.fs), "harness: freed a frame it did not hold">>,
+     <<"C03", FreeNow(e) # s.ps.n - Cardinality(s.ps.held \ F),
+              <<"totals after free: free reported", FreeNow(e), "expected", s.ps.n - Cardinality(s.ps.held \ F)>> >>,
+     <<"XB3", e.lock # 0, "allocator lock held after FreeFrame">> >>]
+
 Tables(s, e, who) ==
   LET tbl == WSet(e.tables) IN <<
     <<"XB1", e.bad # 0, "address space has entries pointing outside physical memory">>,
@@ -324,6 +351,8 @@ Mon(s, e) ==
     [] e.k = "vmm" /\ s.ph = "pmm" -> MonVmm(s, e)
     [] e.k = "alloc" /\ s.ph = "up" -> MonAlloc(s, e)
     [] e.k = "free" /\ s.ph = "up"  -> MonFree(s, e)
+    [] e.k = "drain" /\ s.ph = "up" -> MonDrain(s, e)
+    [] e.k = "freeall" /\ s.ph = "up" -> MonFreeAll(s, e)
     [] e.k = "map" /\ s.ph = "up"   -> MonMap(s, e)
     [] e.k = "fault" /\ s.ph = "up" -> MonFault(s, e)
     [] e.k = "unmap" /\ s.ph = "up" -> MonUnmap(s, e)
